@@ -59,8 +59,9 @@ def M():
       _mods[name] = None
       _mods.setdefault('import_failures', []).append('%s: %r' % (name, e))
   _install_hash_recorder()
-  # BBOB functions that cannot be evaluated in this environment (this numpy refuses float() of a
-  # 1-element array with ndim > 0, which about half of bbob.py relies on) are left out and named in the evidence
+  # A BBOB function that cannot evaluate an ordinary point (before fix round g about half of bbob.py relied on
+  # float() of a one-element array with ndim > 0, which this numpy refuses) is left out of the stackings and
+  # reported by run() as a property failure: an experimenter over it completes no trial
   usable = []
   for fn in list(BBOB_FUNCTIONS):
     try:
@@ -68,7 +69,7 @@ def M():
         float(getattr(bbob, fn)(np.linspace(-1.3, 2.1, d)))
       usable.append(fn)
     except Exception as e:  # pylint: disable=broad-except
-      _mods.setdefault('import_failures', []).append('bbob.%s: %s' % (fn, str(e)[:80]))
+      _mods.setdefault('bbob_failures', []).append((fn, '%s: %s' % (type(e).__name__, str(e)[:120])))
   BBOB_FUNCTIONS[:] = usable
   return _mods
 
@@ -1514,6 +1515,10 @@ def run(c):
   m = M()
   if m.get('import_failures'):
     c.notes.append('bases that do not import here: %s' % m['import_failures'])
+  for fn, err in m.get('bbob_failures', []):
+    c.prop_fail('bbob-base-raises:' + fn,
+                'the BBOB base function %s cannot evaluate a point of its search space (%s): NumpyExperimenter(bbob.%s, …).evaluate() raises and completes no trial' % (fn, err, fn),
+                {'base': {'k': 'base', 'fam': 'bbob', 'fn': fn, 'dim': 3}, 'point': [-1.3, 0.4, 2.1]})
   flags = identify_variants(c)
   c.flags.update({'hypercubeKeepsInfeasible': flags['hypercube'], 'switchKeepsInfeasible': flags['switch'],
                   'multiKeepsInfeasible': flags['multi'], 'permuteIntegerValued': flags['permuteInt'],
